@@ -29,51 +29,72 @@ theorem getIsowk_spec (y : Nat) (h1 : 1901 ≤ y) (h2 : y ≤ 2099) : (getIsowk 
   simp only [Bool.and_eq_true, beq_iff_eq] at h
   exact h.2
 
-/-- what one (week, weekday) pair of `fill_yly_ywd` adds -/
-def ywdSel (y : Nat) (wk dc : Int) : Option Nat :=
-  if dc ≤ 0 ∨ dc > 7 then none else
-  if (ywdToMd y wk dc.toNat).m = 0 then none
-  else some (packCand (ywdToMd y wk dc.toNat).m (ywdToMd y wk dc.toNat).d)
+/-- what one (week, weekday, year offset) triple of `fill_yly_ywd` adds -/
+def ywdSel (y : Nat) (wk dc of : Int) : Option Nat :=
+  if (ywdToMd y of wk dc.toNat).m = 0 then none
+  else some (packCand (ywdToMd y of wk dc.toNat).m (ywdToMd y of wk dc.toNat).d)
 
 theorem fillYlyYwd_eq (cand : List Nat) (y : Nat) (woy dow : List Int) :
     fillYlyYwd cand y woy dow =
-      woy.foldl (fun cand wk => dow.foldl (fun cand dc => assO cand (ywdSel y wk dc)) cand) cand := by
+      woy.foldl (fun cand wk => dow.foldl (fun cand dc =>
+        if dc ≤ 0 ∨ dc > 7 then cand else
+        ([-1, 0, 1] : List Int).foldl (fun cand of => assO cand (ywdSel y wk dc of)) cand) cand) cand := by
   unfold fillYlyYwd
   congr 1
   funext cand wk
   congr 1
   funext cand dc
-  unfold ywdSel
-  dsimp only
   split
   · rfl
-  · split <;> rfl
+  · congr 1
+    funext cand of
+    unfold ywdSel
+    dsimp only
+    split <;> rfl
 
 theorem mem_fillYlyYwd (cand : List Nat) (y : Nat) (woy dow : List Int) (c : Nat) :
-    c ∈ fillYlyYwd cand y woy dow ↔ c ∈ cand ∨ ∃ wk ∈ woy, ∃ dc ∈ dow, 1 ≤ dc ∧ dc ≤ 7 ∧
-      (ywdToMd y wk dc.toNat).m ≠ 0 ∧ c = packCand (ywdToMd y wk dc.toNat).m (ywdToMd y wk dc.toNat).d := by
+    c ∈ fillYlyYwd cand y woy dow ↔ c ∈ cand ∨ ∃ wk ∈ woy, ∃ dc ∈ dow, 1 ≤ dc ∧ dc ≤ 7 ∧ ∃ of ∈ ([-1, 0, 1] : List Int),
+      (ywdToMd y of wk dc.toNat).m ≠ 0 ∧ c = packCand (ywdToMd y of wk dc.toNat).m (ywdToMd y of wk dc.toNat).d := by
   rw [fillYlyYwd_eq]
-  rw [mem_foldl_nest (fun cand wk => dow.foldl (fun cand dc => assO cand (ywdSel y wk dc)) cand)
-    (fun wk c => ∃ dc ∈ dow, ywdSel y wk dc = some c) (fun c a x => mem_foldl_assO _ dow c x)]
+  rw [mem_foldl_nest (fun cand wk => dow.foldl (fun cand dc =>
+        if dc ≤ 0 ∨ dc > 7 then cand else
+        ([-1, 0, 1] : List Int).foldl (fun cand of => assO cand (ywdSel y wk dc of)) cand) cand)
+    (fun wk c => ∃ dc ∈ dow, 1 ≤ dc ∧ dc ≤ 7 ∧ ∃ of ∈ ([-1, 0, 1] : List Int), ywdSel y wk dc of = some c)
+    (fun c wk x => by
+      rw [mem_foldl_nest (fun cand dc =>
+          if dc ≤ 0 ∨ dc > 7 then cand else
+          ([-1, 0, 1] : List Int).foldl (fun cand of => assO cand (ywdSel y wk dc of)) cand)
+        (fun dc c => 1 ≤ dc ∧ dc ≤ 7 ∧ ∃ of ∈ ([-1, 0, 1] : List Int), ywdSel y wk dc of = some c)
+        (fun c dc x => by
+          by_cases c1 : dc ≤ 0 ∨ dc > 7
+          · rw [if_pos c1]
+            constructor
+            · intro h; exact Or.inl h
+            · rintro (h | ⟨_, _, _⟩)
+              · exact h
+              · omega
+          · rw [if_neg c1, mem_foldl_assO]
+            apply or_congr Iff.rfl
+            constructor
+            · intro h; exact ⟨by omega, by omega, h⟩
+            · rintro ⟨_, _, h⟩; exact h)])]
   apply or_congr Iff.rfl
   apply exists_congr; intro wk
   apply and_congr Iff.rfl
   apply exists_congr; intro dc
   apply and_congr Iff.rfl
+  apply and_congr Iff.rfl
+  apply and_congr Iff.rfl
+  apply exists_congr; intro of
+  apply and_congr Iff.rfl
   unfold ywdSel
-  by_cases c1 : dc ≤ 0 ∨ dc > 7
-  · rw [if_pos c1]
+  by_cases c2 : (ywdToMd y of wk dc.toNat).m = 0
+  · rw [if_pos c2]; simp [c2]
+  · rw [if_neg c2]
+    simp only [Option.some.injEq]
     constructor
-    · intro h; cases h
-    · rintro ⟨a, b, _⟩; omega
-  · rw [if_neg c1]
-    by_cases c2 : (ywdToMd y wk dc.toNat).m = 0
-    · rw [if_pos c2]; simp [c2]
-    · rw [if_neg c2]
-      simp only [Option.some.injEq]
-      constructor
-      · intro h; exact ⟨by omega, by omega, c2, h.symm⟩
-      · rintro ⟨_, _, _, h⟩; exact h.symm
+    · intro h; exact ⟨c2, h.symm⟩
+    · rintro ⟨_, h⟩; exact h.symm
 
 theorem getIsowk_range (y : Nat) : getIsowk y = 52 ∨ getIsowk y = 53 := by
   unfold getIsowk; split <;> simp
@@ -171,53 +192,129 @@ theorem ywdGetYday_eq (y : Nat) (w : Int) (d : Nat) (hd : 1 ≤ d ∧ d ≤ 7)
   by_cases c : w < 0
   · rw [if_pos c, if_pos c, s32_u32_small (w + 1 + (N : Int)) (by omega), s32_u32_small _ (by omega)]
   · rw [if_neg c, if_neg c, s32_u32_small _ (by omega)]
-theorem ywdToMd_spec (x : Inst) (hx : DateIn x) (w : Int) (hw : w ≠ 0 ∧ -53 ≤ w ∧ w ≤ 53) (d : Nat)
-    (hd : 1 ≤ d ∧ d ≤ 7) :
-    ywdToMd x.y w d = ⟨x.m, x.d⟩ ↔ (wdayOf (dayOf x) = d ∧
-      (let wn := if w > 0 then w else isoWeeks x.y + 1 + w
-       1 ≤ wn ∧ wn ≤ isoWeeks x.y ∧ week1Start x.y + 7 * (wn - 1) ≤ dayOf x ∧ dayOf x < week1Start x.y + 7 * wn)) := by
+/-- where the code puts January 1st of the ISO year `y + of`, counted from January 1st of `y` -/
+def ywdOff (y : Nat) (of : Int) : Int :=
+  if of > 0 then 365 + (leapN y : Int) else if of < 0 then -(365 + (leapN ((y : Int) + of).toNat : Int)) else 0
+
+/-- the table facts of the ISO year `1901 + i + of`: number of weeks, and the Monday of week 1 through the code's
+"hang", seen from January 1st of `1901 + i` (for 1900, which the 28-year table takes for a leap year, the code's
+January 1st lies a day early and on a Sunday - the Monday of week 1 is the right one all the same) -/
+def iyChk (i : Nat) (of : Int) : Bool :=
+  let y := 1901 + i
+  let iy := ((y : Int) + of).toNat
+  let j := getJan01Wday iy
+  ((getIsowk iy : Int) == isoWeeks iy) &&
+    (week1Start iy == days y 1 1 + ywdOff y of + ywdGetJan01Hang j) && decide (1 ≤ j) && decide (j ≤ 7)
+
+theorem iyChk_all : ∀ i, i < 199 → (iyChk i (-1) && iyChk i 0 && iyChk i 1) = true := by decide +kernel
+
+theorem iy_facts (y : Nat) (h1 : 1901 ≤ y) (h2 : y ≤ 2099) (of : Int) (hof : of = -1 ∨ of = 0 ∨ of = 1) :
+    (getIsowk ((y : Int) + of).toNat : Int) = isoWeeks ((y : Int) + of).toNat ∧
+    week1Start ((y : Int) + of).toNat =
+      days y 1 1 + ywdOff y of + ywdGetJan01Hang (getJan01Wday ((y : Int) + of).toNat) ∧
+    1 ≤ getJan01Wday ((y : Int) + of).toNat ∧ getJan01Wday ((y : Int) + of).toNat ≤ 7 := by
+  have h := iyChk_all (y - 1901) (by omega)
+  have e : 1901 + (y - 1901) = y := by omega
+  simp only [Bool.and_eq_true] at h
+  have k : iyChk (y - 1901) of = true := by
+    rcases hof with rfl | rfl | rfl
+    · exact h.1.1
+    · exact h.1.2
+    · exact h.2
+  unfold iyChk at k
+  rw [e] at k
+  simp only [Bool.and_eq_true, beq_iff_eq, decide_eq_true_eq] at k
+  exact ⟨k.1.1.1, k.1.1.2, k.1.2, k.2⟩
+
+/-- the date lies in week `n` (from the end if negative) of the ISO year `iy` -/
+def InWk (iy : Nat) (n : Int) (x : Inst) : Prop :=
+  let w := if n > 0 then n else isoWeeks iy + 1 + n
+  1 ≤ w ∧ w ≤ isoWeeks iy ∧ week1Start iy + 7 * (w - 1) ≤ dayOf x ∧ dayOf x < week1Start iy + 7 * w
+
+/-- BYWEEKNO of the RFC reading through the code's year offsets -/
+theorem weeknoOk_of (r : Rule) (x : Inst) (h : 1 ≤ x.y) :
+    weeknoOk r x ↔ ∃ n ∈ r.wk, ∃ of ∈ ([-1, 0, 1] : List Int), InWk ((x.y : Int) + of).toNat n x := by
+  have e1 : ((x.y : Int) + -1).toNat = x.y - 1 := by omega
+  have e2 : ((x.y : Int) + 0).toNat = x.y := by omega
+  have e3 : ((x.y : Int) + 1).toNat = x.y + 1 := by omega
+  unfold weeknoOk
+  apply exists_congr; intro n
+  apply and_congr Iff.rfl
+  constructor
+  · rintro ⟨iy, hiy, hh⟩
+    simp only [List.mem_cons, List.not_mem_nil, or_false] at hiy
+    rcases hiy with rfl | rfl | rfl
+    · exact ⟨-1, by simp, by rw [e1]; exact hh⟩
+    · exact ⟨0, by simp, by rw [e2]; exact hh⟩
+    · exact ⟨1, by simp, by rw [e3]; exact hh⟩
+  · rintro ⟨of, hof, hh⟩
+    simp only [List.mem_cons, List.not_mem_nil, or_false] at hof
+    rcases hof with rfl | rfl | rfl
+    · rw [e1] at hh; exact ⟨_, by simp, hh⟩
+    · rw [e2] at hh; exact ⟨_, by simp, hh⟩
+    · rw [e3] at hh; exact ⟨_, by simp, hh⟩
+
+/-- `ywd_to_md(y, of, w, d)` is the day of the calendar year `y` that is weekday `d` of week `w` of the ISO year
+`y + of`, and every such day is found -/
+theorem ywdToMd_spec (x : Inst) (hx : DateIn x) (of : Int) (hof : of = -1 ∨ of = 0 ∨ of = 1) (w : Int)
+    (hw : w ≠ 0 ∧ -53 ≤ w ∧ w ≤ 53) (d : Nat) (hd : 1 ≤ d ∧ d ≤ 7) :
+    ywdToMd x.y of w d = ⟨x.m, x.d⟩ ↔ (wdayOf (dayOf x) = d ∧ InWk ((x.y : Int) + of).toNat w x) := by
   have hv := hx.v
-  have hN := getIsowk_range x.y
-  have eN := getIsowk_spec x.y hx.lo hx.hi
-  have eW := week1Start_hang x.y hx.lo hx.hi
-  have hW1 := wdayOf_week1Start x.y
-  have hjr : 1 ≤ getJan01Wday x.y ∧ getJan01Wday x.y ≤ 7 := by
-    rw [jan01_wday _ hx.lo hx.hi]; unfold wdayOf; omega
+  obtain ⟨eN, eW, hjr⟩ := iy_facts x.y hx.lo hx.hi of hof
+  have hN := getIsowk_range ((x.y : Int) + of).toNat
+  have hW1 := wdayOf_week1Start ((x.y : Int) + of).toNat
   have hh := hang_range _ hjr
   have hyr := dateIn_inYear hx
   have hm1 : 1 ≤ x.m := hv.1
+  have hoff : -366 ≤ ywdOff x.y of ∧ ywdOff x.y of ≤ 366 := by
+    unfold ywdOff leapN; split
+    · split <;> omega
+    · split
+      · split <;> omega
+      · omega
+  unfold InWk
   dsimp only
   rw [← eN]
   unfold ywdToMd
   dsimp only
-  by_cases c1 : w = 0 ∨ w > (getIsowk x.y : Int) ∨ w < -(getIsowk x.y : Int)
+  generalize hiy : ((x.y : Int) + of).toNat = iy at *
+  by_cases c1 : w = 0 ∨ w > (getIsowk iy : Int) ∨ w < -(getIsowk iy : Int)
   · rw [if_pos c1]
     constructor
     · intro h; have := congrArg Md.m h; dsimp only at this; omega
     · rintro ⟨_, h⟩; split at h <;> omega
   · rw [if_neg c1]
-    rw [ywdGetYday_eq x.y w d hd (by omega) _ rfl hjr]
-    have ewn : (if w > 0 then w else (getIsowk x.y : Int) + 1 + w) =
-        (if w < 0 then w + 1 + (getIsowk x.y : Int) else w) := by split <;> split <;> omega
+    rw [ywdGetYday_eq iy w d hd (by omega) _ rfl hjr]
+    have eyd : ∀ E : Int, (if of > 0 then E + (365 + (leapN x.y : Int))
+        else if of < 0 then E - (365 + (leapN iy : Int)) else E) = E + ywdOff x.y of := by
+      intro E; unfold ywdOff; rw [hiy]; split
+      · rfl
+      · split <;> omega
+    rw [eyd]
+    have ewn : (if w > 0 then w else (getIsowk iy : Int) + 1 + w) =
+        (if w < 0 then w + 1 + (getIsowk iy : Int) else w) := by split <;> split <;> omega
     rw [ewn]
-    have hwn : 1 ≤ (if w < 0 then w + 1 + (getIsowk x.y : Int) else w) ∧
-        (if w < 0 then w + 1 + (getIsowk x.y : Int) else w) ≤ getIsowk x.y := by split <;> omega
-    generalize (if w < 0 then w + 1 + (getIsowk x.y : Int) else w) = wn at hwn ⊢
-    generalize ywdGetJan01Hang (getJan01Wday x.y) = hang at hh eW ⊢
-    generalize week1Start x.y = W at eW hW1 ⊢
+    have hwn : 1 ≤ (if w < 0 then w + 1 + (getIsowk iy : Int) else w) ∧
+        (if w < 0 then w + 1 + (getIsowk iy : Int) else w) ≤ getIsowk iy := by split <;> omega
+    generalize (if w < 0 then w + 1 + (getIsowk iy : Int) else w) = wn at hwn ⊢
+    generalize ywdGetJan01Hang (getJan01Wday iy) = hang at hh eW ⊢
+    generalize week1Start iy = W at eW hW1 ⊢
+    generalize ywdOff x.y of = off at hoff eW ⊢
     generalize hD : dayOf x = D at hyr ⊢
     generalize hJ : days x.y 1 1 = J at hyr eW
-    generalize (getIsowk x.y : Int) = N at hwn ⊢
+    generalize (getIsowk iy : Int) = N at hwn ⊢
     unfold wdayOf at hW1 ⊢
-    by_cases c2 : 7 * (wn - 1) + (d : Int) + hang ≤ 0 ∨ 7 * (wn - 1) + (d : Int) + hang > 365 + (leapN x.y : Int)
+    by_cases c2 : 7 * (wn - 1) + (d : Int) + hang + off ≤ 0 ∨
+        7 * (wn - 1) + (d : Int) + hang + off > 365 + (leapN x.y : Int)
     · rw [if_pos c2]
       constructor
       · intro h; have := congrArg Md.m h; dsimp only at this; omega
       · rintro ⟨_, h⟩; omega
     · rw [if_neg c2]
-      have ek : 7 * (wn - 1) + (d : Int) + hang = ((7 * (wn - 1) + (d : Int) + hang).toNat : Nat) := by omega
+      have ek : 7 * (wn - 1) + (d : Int) + hang + off = ((7 * (wn - 1) + (d : Int) + hang + off).toNat : Nat) := by
+        omega
       have hl : leapN x.y = (if x.y % 4 = 0 then 1 else 0) := rfl
-      generalize (7 * (wn - 1) + (d : Int) + hang).toNat = k at ek
+      generalize (7 * (wn - 1) + (d : Int) + hang + off).toNat = k at ek
       rw [ek] at c2 ⊢
       obtain ⟨s1, s2, s3, s4, s5⟩ := Echse.RuleExt.ydToMd_spec x.y k hx.lo hx.hi (by omega) (by omega)
       rw [hJ] at s5
@@ -233,38 +330,40 @@ theorem ywdToMd_spec (x : Inst) (hx : DateIn x) (w : Int) (hw : w ≠ 0 ∧ -53 
         cases hmd : ydToMd x.y k with
         | mk a b => rw [hmd] at this; dsimp only at this; rw [this.1, this.2]
 
-theorem ywdToMd_valid (y : Nat) (w : Int) (d : Nat) (h : (ywdToMd y w d).m ≠ 0) :
-    (1 ≤ (ywdToMd y w d).m ∧ (ywdToMd y w d).m ≤ 12) ∧ (ywdToMd y w d).d ≤ 31 := by
-  have a := ywdToMd_ok y w d
-  have b := getNdom_le y (ywdToMd y w d).m
+theorem ywdToMd_valid (y : Nat) (of w : Int) (d : Nat) (h : (ywdToMd y of w d).m ≠ 0) :
+    (1 ≤ (ywdToMd y of w d).m ∧ (ywdToMd y of w d).m ≤ 12) ∧ (ywdToMd y of w d).d ≤ 31 := by
+  have a := ywdToMd_ok y of w d
+  have b := getNdom_le y (ywdToMd y of w d).m
   unfold okMd at a
   simp only [Bool.or_eq_true, beq_iff_eq, Bool.and_eq_true, decide_eq_true_eq] at a
   omega
 
+theorem of_mem {of : Int} (h : of ∈ ([-1, 0, 1] : List Int)) : of = -1 ∨ of = 0 ∨ of = 1 := by
+  simpa only [List.mem_cons, List.not_mem_nil, or_false] using h
+
 /-- BYWEEKNO × BYDAY: the date `x` is among the candidates of its year iff its weekday is listed and it lies in a
-listed ISO week of its own calendar year -/
+listed ISO week (of its own calendar year's numbering or, at the year's ends, the neighbouring one's) -/
 theorem mem_ywd_date_rule (r : Rule) (x : Inst) (hx : DateIn x) (dow : List Int)
     (hw : ∀ w ∈ r.wk, w ≠ 0 ∧ -53 ≤ w ∧ w ≤ 53) :
     packCand x.m x.d ∈ fillYlyYwd [] x.y r.wk dow ↔
       (∃ dc ∈ dow, 1 ≤ dc ∧ dc ≤ 7 ∧ (wdayOf (dayOf x) : Int) = dc) ∧ weeknoOk r x := by
   have hv := hx.v
   have h31 := hv.d31
-  rw [mem_fillYlyYwd]
-  unfold weeknoOk
+  rw [mem_fillYlyYwd, weeknoOk_of r x (by have := hx.lo; omega)]
   constructor
-  · rintro (h | ⟨wk, hwk, dc, hdc, d1, d7, hm, he⟩)
+  · rintro (h | ⟨wk, hwk, dc, hdc, d1, d7, of, hof, hm, he⟩)
     · cases h
-    · obtain ⟨v1, v2⟩ := ywdToMd_valid x.y wk dc.toNat hm
+    · obtain ⟨v1, v2⟩ := ywdToMd_valid x.y of wk dc.toNat hm
       have e := packCand_inj ⟨hv.1, hv.2.1⟩ h31 v1 v2 he
-      have e' : ywdToMd x.y wk dc.toNat = ⟨x.m, x.d⟩ := by
-        cases hmd : ywdToMd x.y wk dc.toNat with
+      have e' : ywdToMd x.y of wk dc.toNat = ⟨x.m, x.d⟩ := by
+        cases hmd : ywdToMd x.y of wk dc.toNat with
         | mk a b => rw [hmd] at e; dsimp only at e; rw [e.1, e.2]
-      have s := (ywdToMd_spec x hx wk (hw wk hwk) dc.toNat (by omega)).mp e'
-      exact ⟨⟨dc, hdc, d1, d7, by omega⟩, wk, hwk, s.2⟩
-  · rintro ⟨⟨dc, hdc, d1, d7, hwd⟩, wk, hwk, hs⟩
+      have s := (ywdToMd_spec x hx of (of_mem hof) wk (hw wk hwk) dc.toNat (by omega)).mp e'
+      exact ⟨⟨dc, hdc, d1, d7, by omega⟩, wk, hwk, of, hof, s.2⟩
+  · rintro ⟨⟨dc, hdc, d1, d7, hwd⟩, wk, hwk, of, hof, hs⟩
     right
-    have e' := (ywdToMd_spec x hx wk (hw wk hwk) dc.toNat (by omega)).mpr ⟨by omega, hs⟩
-    refine ⟨wk, hwk, dc, hdc, d1, d7, ?_, ?_⟩
+    have e' := (ywdToMd_spec x hx of (of_mem hof) wk (hw wk hwk) dc.toNat (by omega)).mpr ⟨by omega, hs⟩
+    refine ⟨wk, hwk, dc, hdc, d1, d7, of, hof, ?_, ?_⟩
     · rw [e']; dsimp only; have := hv.1; omega
     · rw [e']
 
